@@ -41,8 +41,7 @@ class EvCase:
                 fn = ev.compile(self.outs)
                 v1 = flatten(fn(self.args0))
                 v2 = flatten(fn(self.args1))
-                v3 = flatten(fn(self.args0))
-            return v1 + v2 + v3
+            return v1 + v2
         if self.mode == 'compile_par_call_ser':
             with parallel.maxprocs(n):
                 fn = ev.compile(self.outs)
@@ -87,7 +86,7 @@ def script_features(scripts):
     return f
 
 
-def run_one(case, n, pseed, logdir, fault=None, parent_delay_us=0):
+def run_one(case, n, pseed, logdir, fault=None, parent_delay_us=0, barrier_ms=200):
     """One traced parallel evaluation. Returns dict(outcome, value|exc, analysis, info)."""
     from vlib import c16_trace as T, c16_checkers as C
     logpath = os.path.join(logdir, 'events.log')
@@ -96,7 +95,7 @@ def run_one(case, n, pseed, logdir, fault=None, parent_delay_us=0):
         os.unlink(flag)
     if fault:
         fault = dict(fault, flag=flag)
-    T.begin_run(logpath, pseed=pseed, perturb=True, fault=fault, parent_delay_us=parent_delay_us)
+    T.begin_run(logpath, pseed=pseed, perturb=True, fault=fault, parent_delay_us=parent_delay_us, barrier_ms=barrier_ms)
     value = exc = tb = None
     outcome = 'raised'
     try:
@@ -168,8 +167,9 @@ def batch(job, res):
             prog_hash = None
             prog_concurrent = False
             prog_locked = False
-            for n in job['ns']:
-                for pseed in job['pseeds']:
+            example = None
+            for n in spec.get('ns') or job['ns']:
+                for pseed in spec.get('pseeds') or job['pseeds']:
                     if time.time() > job['deadline']:
                         res.count('runs_skipped_deadline')
                         continue
@@ -178,7 +178,7 @@ def batch(job, res):
                             json.dump(dict(spec=spec, n=n, pseed=pseed), f)
                     r = run_one(case, n, pseed, logdir)
                     an, info = r['analysis'], r['info']
-                    runcase = dict(spec=spec, n=n, pseed=pseed)
+                    runcase = dict(spec={k: v for k, v in spec.items() if k not in ('ns', 'pseeds')}, n=n, pseed=pseed)
                     res.count('evaluations')
                     res.count(f'runs/n={n}')
                     res.count('events', r['nevents'])
@@ -218,6 +218,8 @@ def batch(job, res):
                         if v == tolerance.VIOLATION:
                             res.violation('result', runcase, f'maxprocs({n}) differs from maxprocs(1): {d}')
                     if an['concurrent']:
+                        if example is None:
+                            example = dict(n=n, pseed=pseed, claim_sequences=an['claim_sequence'], write_interleaving_per_array=an['signature'][:400], events=r['nevents'])
                         res.count('runs_concurrent')
                         res.count(f'runs_concurrent/n={n}')
                         res.add('interleavings', hashlib.sha1(f'{prog_hash} {n} {an["signature"]}'.encode()).hexdigest()[:12])
@@ -230,8 +232,8 @@ def batch(job, res):
                 res.add('programs_all', prog_hash)
                 if prog_concurrent and prog_locked:
                     res.add('distinct', prog_hash)
-                if len(res.samples) < 2 and prog_concurrent:
-                    res.sample(dict(spec=spec, program_hash=prog_hash))
+                if len(res.samples) < 2 and prog_concurrent and example is not None:
+                    res.sample(dict(spec={k: v for k, v in spec.items() if k not in ('ns', 'pseeds')}, program_hash=prog_hash, example_run=example))
     finally:
         import shutil
         shutil.rmtree(logdir, ignore_errors=True)
@@ -252,7 +254,7 @@ def fault_run(job):
             return dict(status='discarded', why='build:' + type(e).__name__)
         if refexc is not None:
             return dict(status='discarded', why='serial:' + type(refexc).__name__)
-        r = run_one(case, job['n'], job['pseed'], logdir, fault=job['fault'], parent_delay_us=job.get('parent_delay_us', 1500))
+        r = run_one(case, job['n'], job['pseed'], logdir, fault=job['fault'], parent_delay_us=job.get('parent_delay_us', 3000), barrier_ms=1000)
         an = r['analysis']
         out = dict(status='done', outcome=r['outcome'], injected=bool(an['faults']), faults=an['faults'], stats=an['stats'],
                    problems=[p for p in an['problems'] if p[0] != 'join'], claim_sequence=an['claim_sequence'], unreaped=len(r['info']['unreaped']))
